@@ -220,13 +220,14 @@ void op_cmp(Str const& a, Str const& b)
     sb.check("rhs");
 }
 
-void op_ncmp(Str const& a, Str const& b, std::size_t n)
+// array=false: terminated strings; array=true: arrays of exactly the number of characters C allows to be read
+void op_ncmp(Str const& a, Str const& b, std::size_t n, bool array)
 {
     std::size_t d = first_diff(a, b);
     bool equal    = d == a.size() && d == b.size();
     char sit[96];
     std::snprintf(sit, sizeof sit, "%s,%s", relation(a, b), n == SMAX ? "n=max" : (n == 0 ? "n=0" : (equal ? (n < d ? "n<len" : (n == d ? "n=len" : "n-past-end")) : (n <= d ? "n-before-diff" : "n-past-diff"))));
-    {
+    if (!array) {
         vfc::Src<Ch> sa(a), sb(b);
         char const* op = OPN(strncmp, wcsncmp);
         vf::crumb(SUBJ, op, sit, "lhs=%s rhs=%s n=%lld", vfc::show(a).c_str(), vfc::show(b).c_str(), P(n));
@@ -238,7 +239,7 @@ void op_ncmp(Str const& a, Str const& b, std::size_t n)
         sb.check("rhs");
     }
     // arrays of exactly min(len+1, n) characters: C allows at most n characters to be read
-    if (n != SMAX && (n <= a.size() || n <= b.size())) {
+    if (array && n != SMAX && (n <= a.size() || n <= b.size())) {
         Str ta = a, tb = b;
         bool za = true, zb = true;
         if (n <= a.size()) {
@@ -280,11 +281,11 @@ void op_cpy(Str const& b)
     }
 }
 
-void op_ncpy(Str const& b, std::size_t n)
+void op_ncpy(Str const& b, std::size_t n, bool array)
 {
     char const* sit = ncls(n, b.size());
     for (Pres const& p : PRES) {
-        {
+        if (!array) {
             char const* op = OPN(strncpy, wcsncpy);
             vfc::Src<Ch> sb(b);
             vfc::Img<Ch> im(image(p.pre, Str{}, false, n, p.post));
@@ -298,7 +299,7 @@ void op_ncpy(Str const& b, std::size_t n)
             im.same("dest", p.pre, p.pre + n);
             sb.check("src");
         }
-        if (n <= b.size()) { // source array of exactly n characters, no terminator
+        if (array && n <= b.size()) { // source array of exactly n characters, no terminator
             char const* op = NM("strncpy[array]", "wcsncpy[array]");
             Str tb         = b.substr(0, n);
             vfc::Src<Ch> sb(tb, false);
@@ -337,14 +338,14 @@ void op_cat(Str const& a, Str const& b)
     }
 }
 
-void op_ncat(Str const& a, Str const& b, std::size_t n)
+void op_ncat(Str const& a, Str const& b, std::size_t n, bool array)
 {
     char sit[96];
     std::snprintf(sit, sizeof sit, "dest-%s,src-%s,%s", emp(a), emp(b), n == SMAX ? "n=max" : (n == 0 ? "n=0" : (n < b.size() ? "n<len" : (n == b.size() ? "n=len" : "n>len"))));
     std::size_t m      = n < b.size() ? n : b.size();
     std::size_t extent = a.size() + m + 1;
     for (Pres const& p : PRES) {
-        {
+        if (!array) {
             char const* op = OPN(strncat, wcsncat);
             vfc::Src<Ch> sb(b);
             vfc::Img<Ch> im(image(p.pre, a, true, extent, p.post));
@@ -358,7 +359,7 @@ void op_ncat(Str const& a, Str const& b, std::size_t n)
             im.same("dest", p.pre + a.size(), p.pre + extent);
             sb.check("src");
         }
-        if (n <= b.size()) { // source array of exactly n characters, no terminator
+        if (array && n <= b.size()) { // source array of exactly n characters, no terminator
             char const* op = NM("strncat[array]", "wcsncat[array]");
             Str tb         = b.substr(0, n);
             vfc::Src<Ch> sb(tb, false);
@@ -533,24 +534,29 @@ void chr_all(Str const& a, Ch (*sym)(unsigned), unsigned A)
 #endif
 }
 
-void single_ops(Str const& a, Ch (*sym)(unsigned), unsigned A, std::vector<std::size_t> const& ns)
+// The "array" presentations (most likely to trip a sanitizer) run last so that a crash in one of them
+// cannot hide the other operations of the same case.
+void all_ops(Str const& a, Str const& b, bool single, Ch (*sym)(unsigned), unsigned A, std::vector<std::size_t> const& ncmps,
+    std::vector<std::size_t> const& ncats, std::vector<std::size_t> const& ncpys)
 {
-    op_len(a);
-    op_cpy(a);
-    for (std::size_t n : ns) {
-        if (n != SMAX) { op_ncpy(a, n); }
-    }
-    chr_all(a, sym, A);
-}
-void pair_ops(Str const& a, Str const& b, std::vector<std::size_t> const& ncmps, std::vector<std::size_t> const& ncats)
-{
-    op_cmp(a, b);
-    for (std::size_t n : ncmps) { op_ncmp(a, b, n); }
-    op_cat(a, b);
-    for (std::size_t n : ncats) { op_ncat(a, b, n); }
     op_spn(a, b);
     op_pbrk(a, b);
     op_str(a, b);
+    op_cat(a, b);
+    for (std::size_t n : ncats) { op_ncat(a, b, n, false); }
+    if (single) {
+        op_len(a);
+        op_cpy(a);
+        for (std::size_t n : ncpys) { op_ncpy(a, n, false); }
+        chr_all(a, sym, A);
+    }
+    op_cmp(a, b);
+    for (std::size_t n : ncmps) { op_ncmp(a, b, n, false); }
+    for (std::size_t n : ncmps) { op_ncmp(a, b, n, true); }
+    if (single) {
+        for (std::size_t n : ncpys) { op_ncpy(a, n, true); }
+    }
+    for (std::size_t n : ncats) { op_ncat(a, b, n, true); }
 }
 
 void run_case(vf::Case& c)
@@ -584,9 +590,8 @@ void run_case(vf::Case& c)
         if (vf::want_sample("pair")) { vf::sample("pair", "a=%s b=%s: every function, every count 0..len+2 and SIZE_MAX", vfc::show(a).c_str(), vfc::show(b).c_str()); }
         if (single) {
             for (std::size_t n = 0; n <= a.size() + 2; ++n) { ncpys.push_back(n); }
-            single_ops(a, sym, A, ncpys);
         }
-        pair_ops(a, b, ncmps, ncats);
+        all_ops(a, b, single, sym, A, ncmps, ncats, ncpys);
         return;
     }
     // ---- seeded random: longer strings, b related to a in various ways
@@ -628,8 +633,7 @@ void run_case(vf::Case& c)
     ncats          = {0, b.size(), (std::size_t)r.below(b.size() + 3), b.size() + 1, SMAX};
     ncpys          = {0, a.size(), a.size() + 1, (std::size_t)r.below(a.size() + 3), a.size() + 1 + (std::size_t)r.below(20)};
     if (vf::want_sample("random")) { vf::sample("random", "a=%s b=%s", vfc::show(a).c_str(), vfc::show(b).c_str()); }
-    single_ops(a, sym, A, ncpys);
-    pair_ops(a, b, ncmps, ncats);
+    all_ops(a, b, true, sym, A, ncmps, ncats, ncpys);
 }
 } // namespace
 
